@@ -54,6 +54,11 @@ class ASTWalker:
                 for _def in definitions
                 if _def.__class__.__name__ in {"FuncDef", "ClassDef", "Decorator", "OverloadedFuncDef"}
             ]
+        elif isinstance(node, ClassDef) and any(
+            getattr(base, "fullname", "") in ("enum.Enum", "enum.IntEnum") for base in node.base_type_exprs
+        ):
+            # Enums are represented by their instances only; their methods have no place in the API model
+            child_nodes = [_def for _def in get_classdef_definitions(node) if _def.__class__.__name__ == "AssignmentStmt"]
         elif isinstance(node, ClassDef):
             definitions = get_classdef_definitions(node)
             child_nodes = [
